@@ -62,6 +62,15 @@ CHAIN_OBJS = {"CHAIN1": {9000: W.R(9000)}, "CHAIN2": {9000: W.R(9001), 9001: W.R
               # no cycle, but 4**14 paths: every object must be resolved once, not once per path
               "STREAMREF": {9000: W.Stream({}, b"q Q")},
               "FANOUT": dict([(9000 + i, [W.R(9001 + i)] * 4) for i in range(14)] + [(9014, [1, 2, 3, 4])])}
+# values nested deeper than the interpreter's recursion limit.  They are written as a name of the same length that is
+# replaced in the finished file, because the writer is recursive itself; the object and stream offsets stay right.
+DEEP = 3000
+DEEP_BYTES = {b"/" + b"Xa" * (DEEP - 1) + b"X": b"[" * DEEP + b"]" * DEEP,
+              b"/" + b"Xd" * (3 * DEEP) + b"X": b"<</A" * DEEP + b" 0" + b">>" * DEEP}
+assert all(len(k) == len(v) for k, v in DEEP_BYTES.items())
+REPL += [W.N(k[1:].decode()) for k in DEEP_BYTES]
+REPL_NAMES += ["array nested %d deep" % DEEP, "dictionary nested %d deep" % DEEP]
+DEEP_R = (len(REPL) - 2, len(REPL) - 1)
 TRAILER_REPL += REPL[16:]
 TRAILER_REPL_NAMES = REPL_NAMES[:16] + ["own startxref offset", "7"] + REPL_NAMES[16:]
 LZW_CODE_VALUES = [0, 255, 256, 257, 258, 259, 300, 511, 512, 4095]
@@ -344,6 +353,22 @@ def sample_space(name):
 
 
 def apply_fault(s, f):
+    data = _apply_fault(s, f)
+    if data is not None and f.get("r") in DEEP_R and f["t"] in ("replace", "whole"):
+        n = 0
+        for k, v in DEEP_BYTES.items():
+            n += data.count(k)
+            data = data.replace(k, v)
+        if n != 1:
+            return None  # the site is inside a compressed object stream
+    return data
+
+
+def is_deep(f):
+    return f.get("r") in DEEP_R and f["t"] in ("replace", "whole")
+
+
+def _apply_fault(s, f):
     objs = s["objs"]
     if f["t"] == "replace":
         path = tuple(tuple(p) for p in f["path"])
@@ -638,6 +663,10 @@ def run_case(case):
             classes.append("raises-ImportError(Pillow not installed)")
         elif isinstance(exc, WorkBudgetExceeded):
             viol.append(("WorkBudgetExceeded@%s" % name, "%s: work exceeded %d events (undamaged seed: %d)" % (name, limits[0], base[0])))
+        elif isinstance(exc, RecursionError) and is_deep(case["fault"]):
+            # one known family (KNOWN_FINDINGS.txt): recursive consumers of parsed values - resolve_all, repr() / str() in
+            # messages - on a value nested deeper than the interpreter's recursion limit
+            viol.append(("RecursionError@value-nested-%d-deep" % DEEP, "%s raised RecursionError (%s)" % (name, bucket(exc))))
         else:
             viol.append((bucket(exc), "%s raised %s: %s" % (name, type(exc).__name__, str(exc)[:200])))
     f = case["fault"]
